@@ -247,8 +247,9 @@ class StringifyMapper(Mapper):
 
     def map_power(self, expr, enclosing_prec, *args, **kwargs):
         return self.parenthesize_if_needed(
+                # base at +1: ** associates to the right, (x**y)**z needs its parens
                 self.format("%s**%s",
-                    self.rec(expr.base, PREC_POWER, *args, **kwargs),
+                    self.rec(expr.base, PREC_POWER+1, *args, **kwargs),
                     self.rec(expr.exponent, PREC_POWER, *args, **kwargs)),
                 enclosing_prec, PREC_POWER)
 
